@@ -25,6 +25,8 @@ CONSTANTS
     MaxFail,      \* budget of non-Ok processor outcomes in one behaviour
     AnyRemainder, \* TRUE: a retryable failure may return any sub-sequence; FALSE: suffixes
     AllowKill,    \* TRUE: the receiver future may be dropped at an await point
+    NonEmptyRem,  \* TRUE: a retryable failure always returns a non-empty remainder
+    OutcomeSet,   \* processor outcomes explored: subset of {"ok", "fail", "retry", "panic", "panicFut"}
     MaxIdleDelay, \* state constraint: do not follow idle spinning beyond this delay (ms)
     Emit          \* TRUE: print one REPLAY line per transition
 
@@ -359,7 +361,7 @@ RECURSIVE SubSeqs(_)
 SubSeqs(q) == IF q = <<>> THEN {<<>>}
               ELSE LET r == SubSeqs(Tail(q)) IN r \cup {<<Head(q)>> \o x : x \in r}
 SuffixesOf(q) == {SubSeq(q, k, Len(q)) : k \in 1..(Len(q) + 1)}
-Remainders(q) == IF AnyRemainder THEN SubSeqs(q) ELSE SuffixesOf(q)
+Remainders(q) == (IF AnyRemainder THEN SubSeqs(q) ELSE SuffixesOf(q)) \ (IF NonEmptyRem THEN {<<>>} ELSE {})
 
 FinishBatch ==   \* final attempt returned: everything in the batch is done; notify_on_flush
     /\ status' = SetStatus(status, SeqSet(cur), "done")
@@ -432,7 +434,7 @@ Kill ==
                    mTrunc, mBlocked, mProcessed, mFailed, mPanicked, mRetry,
                    accepted, taken, calls, fsnap, fret, sres, fails>>
 
-Outcomes == {"ok", "fail", "retry", "panic", "panicFut"}
+Outcomes == OutcomeSet
 
 RecvNext ==
     \/ RecvTake \/ IdleWake \/ RetryWake \/ CbReturn
